@@ -136,6 +136,19 @@ def _held_case(i, rng, tier):
     garbage collector of any thread may do) in the middle of the closing
     handshake of the current one.  Scenario and oracle are C08's."""
     from . import C08
+    if rng.random() < 0.4:
+        # the other single-threaded history with two writers of the closing
+        # flag: close() between Connected and Ready, then the handshake reply
+        # (with or without an accepted extension) is processed
+        for _ in range(400):
+            c = C08.make_case('seeded', rng.randrange(100000), rng, tier)
+            if c['kind'] == 'client_first' and not c.get('prelude') and \
+                    not c.get('close_write_fails') and c.get('app_close'):
+                break
+        c['app_close']['at'] = {'name': 'connected'}
+        c['compress'] = rng.random() < 0.7
+        c['send_everywhere'] = True
+        return {'name': 'close_before_ready', 'held': c}
     for _ in range(200):
         c = C08.make_case('seeded', rng.randrange(100000), rng, tier)
         c.pop('close_write_fails', None)
@@ -149,7 +162,8 @@ def _held_case(i, rng, tier):
 def _execute_held(case):
     from . import C08
     r = C08.execute(case['held'])
-    r.violations = [('C12/held_generator/' + k.split('/', 1)[1], m)
+    r.stats['probe:' + case['name']] += 1
+    r.violations = [('C12/%s/' % case['name'] + k.split('/', 1)[1], m)
                     for k, m in r.violations
                     if k.split('/')[-1] in ('two_closes', 'data_after_close',
                                             'send_accepted_after_close')]
